@@ -879,3 +879,9 @@ class C09(Check):
             return dict(oracle=[['hang', 'history did not finish within 60 s']], violates=True, input=i)
         finally:
             self.close_reference()
+
+
+# the request OBJECT protocol (listeners, mapping protocol, extension attributes, copy, _raise/_copy_error, ts_props slots):
+# an extra correspondence stream and oracle
+from harness import reqobjlib as _reqobj  # noqa: E402
+_reqobj.install(C09)
